@@ -231,6 +231,9 @@ func (ra *RouteAuthenticator) Authenticate(req *http.Request, route *MatchedRout
 				return true, nil, err
 			}
 			lastResult = princ
+		} else {
+			// a scheme without a registered authenticator can never be satisfied
+			return false, nil, nil
 		}
 	}
 	route.Authenticator = ra
